@@ -13,6 +13,7 @@ import (
 	sigtypes "github.com/chain4energy/c4e-chain/x/cfesignature/types"
 	sdk "github.com/cosmos/cosmos-sdk/types"
 	banktypes "github.com/cosmos/cosmos-sdk/x/bank/types"
+	govv1 "github.com/cosmos/cosmos-sdk/x/gov/types/v1"
 	abci "github.com/tendermint/tendermint/abci/types"
 )
 
@@ -37,6 +38,7 @@ type rich struct {
 	sigCount      int
 	txCount       int
 	txFailed      int
+	proposals     int
 }
 
 func newRich(c *fw.Case, record bool) (*rich, error) {
@@ -175,6 +177,30 @@ func (r *rich) traffic(c *fw.Case, intensity int) {
 				r.updatesOK++
 			} else {
 				r.updatesReject++
+			}
+		}
+	}
+	// a real governance proposal now and then: submitted and voted by signed transactions,
+	// executed by x/gov's EndBlocker in whichever later block the 10 s voting period has passed
+	if c.R.Intn(10) == 0 {
+		if msg, _ := c13Message(c, e.n, r.dk, r.mc, govAuthority(), r.now); msg != nil {
+			if _, eerr := e.n.EncodeMsg(msg); eerr == nil {
+				if sp, err := govv1.NewMsgSubmitProposal([]sdk.Msg{msg}, sdk.NewCoins(sdk.NewCoin("uc4e", sdk.NewInt(1))), e.n.Delegator.Bech(), "verif"); err == nil {
+					if r.deliver(e.n.Delegator, nil, sp) && r.lastTx[0].Code == 0 {
+						var id uint64
+						for _, ev := range chain.Flatten(r.lastTx[0].Events) {
+							if ev.Type == "submit_proposal" {
+								if v, ok := ev.Attrs["proposal_id"]; ok {
+									fmt.Sscan(v, &id)
+								}
+							}
+						}
+						if id > 0 {
+							r.deliver(e.n.Delegator, nil, govv1.NewMsgVote(e.n.Delegator.Addr, id, govv1.OptionYes, ""))
+							r.proposals++
+						}
+					}
+				}
 			}
 		}
 	}
